@@ -220,6 +220,7 @@ macro_rules! inst {
 inst!(1);
 inst!(2);
 inst!(3);
+inst!(4);
 
 /// Offsets inside a member list: `[size, next_off, item0_off, item_stride]`.
 #[no_mangle]
